@@ -147,6 +147,18 @@ CLAIMED['C11'] = dict(
     note='Assumes the default "all subjects" configuration; fragments for names needing escaping and superseded duplicates are not decided.',
     ref='DESIGN.md section 3, C11')
 
+CLAIMED['C09'] = dict(
+    technique='effect analysis of the field handlers on their CFG + def-use of accumulators + table agreement',
+    text='Static, ONE clause of the property ("every field shows its text or is reported"): every FieldHandler.handle_* method stores the '
+         'field in the handler state or reports it on every path - the only admissible silent paths are for classes/modules whose '
+         'ivar/cvar/var/type fields extract_fields consumes (R09.1); every accumulator written by a handler is read by format() or merged '
+         'by resolve_types (R09.2); every element tag the epytext parser can build has a branch in the epytext->docutils conversion '
+         '(R09.3); every S{...} symbol has a code point (R09.4); a documented row removed from the parameter table is restored (R09.5). '
+         'Word-for-word preservation, ordering and literal blocks are NOT decided (equalities over runtime strings).',
+    note='The rest of C09 (text conservation in epytext/reST/napoleon parsers and the HTML translator) is outside static reach and is '
+         'stated as undecided; two seeded parser mutants are accordingly not detected.',
+    ref='DESIGN.md section 3, C09')
+
 NOT_APPLICABLE = {
     'C04': 'relation between expandName results and the interpreter import system over all projects: value computations, no clause visible in the shape of the code (DESIGN.md section 5)',
     'C06': 'quantifies over processing schedules; name resolution during the AST walk is order sensitive by design, no structural bound (DESIGN.md section 5); the one structural fact (post-processing after the drain loop) is checked under C05',
